@@ -279,6 +279,20 @@ def dead_driver(ctx, obs, traces, verdicts):
         gs = {e["g"] for e in t["events"]}
         if not {"cb", "ce", "eb", "ee"} <= kinds or len(gs) != t["cfg"]["g"] + 1:
             raise D.Inconclusive("dead driver: stress trace %s has event kinds %s from %d goroutines" % (t["id"], sorted(kinds), len(gs)))
+        # function coverage: every goroutine evaluated every covered function, and none of them before the goroutines started
+        cov = [e for e in t["events"] if e["k"] == "eb" and 1500 <= e["call"]["eid"] < 2000]
+        first_g = {}
+        for e in cov:
+            first_g.setdefault(e["call"]["eid"], e["g"])
+        per_g = {}
+        for e in cov:
+            if e["g"] > 0:
+                per_g.setdefault(e["g"], set()).add(e["call"]["eid"])
+        want = len({e["call"]["eid"] for e in t["events"] if e["k"] == "cb" and 1500 <= e["call"]["eid"] < 2000})
+        if want < 60 or any(g == 0 for g in first_g.values()) or len(per_g) != t["cfg"]["g"] or any(len(s) != want for s in per_g.values()):
+            raise D.Inconclusive("dead driver: stress trace %s does not cover every function concurrently (%d programs)" % (t["id"], want))
+        if len({(e["call"]["eid"], e["call"]["opts"][0]["val"]) for e in cov if e["g"] > 0}) != len([e for e in cov if e["g"] > 0]):
+            raise D.Inconclusive("dead driver: coverage arguments of stress trace %s are not fresh" % t["id"])
     ctx.extra.update({"hist_calls_ok": ok_calls, "hist_calls_cerr": err_calls, "gate_arrivals": gates})
 
 
